@@ -8,6 +8,7 @@
   delete-and-recreate) right before any of the four possible requests, every injected 404/422.
 -/
 import Kopf.Lemmas.C08_Quiet
+import Kopf.Lemmas.C08_Discovery
 namespace Kopf.C08
 open Kopf Kopf.J
 
@@ -957,5 +958,85 @@ theorem name_reuse_witness :
      faults := fun _ => .none },
    ⟨5, 1, some ⟨1, 5, false, [], [("spec", obj [("x", num 0)])]⟩⟩,
    rfl, by decide⟩
+
+/-! ## `exactly when the resource has one`: where the `sub` of the call comes from (API discovery) -/
+
+/-- What kopf takes for the subresources of a resource is what the cluster serves for THAT resource: for every
+    cluster (any resources side by side in the group/version — plurals that are prefixes, extensions or suffixes of
+    one another included —, any subresources, any order of the entries in the discovery answer), every plural
+    and every subresource name. Plurals have no slash (they are path segments). -/
+theorem discovered_subresources (cl : List ResDef) (names : List Name) (p s : Name)
+    (hnames : ∀ n, n ∈ names ↔ n ∈ discoveryNames cl)
+    (hcl : ∀ r ∈ cl, '/' ∉ r.plural) (hp : '/' ∉ p) :
+    s ∈ subresourcesOf names p ↔ ∃ r ∈ cl, r.plural = p ∧ s ∈ r.subs := by
+  rw [mem_subresourcesOf names p s hp, hnames, mem_discoveryNames_sub cl p s hcl hp]
+
+-- non-vacuity: two resources, one plural a prefix of the other, the entries in a shuffled order
+example :
+    let cl : List ResDef := [⟨"widgets".toList, ["scale".toList]⟩, ⟨"widgetsets".toList, [statusName]⟩]
+    let names : List Name := ["widgetsets/status".toList, "widgets".toList, "widgetsets".toList, "widgets/scale".toList]
+    (∀ n, n ∈ names ↔ n ∈ discoveryNames cl) ∧ (∀ r ∈ cl, '/' ∉ r.plural) ∧
+    readVersion names = [("widgets".toList, ["scale".toList]), ("widgetsets".toList, [statusName])] := by
+  refine ⟨?_, by decide, by decide⟩
+  intro n
+  simp [discoveryNames, statusName]
+  constructor <;> intro h <;> rcases h with h | h | h | h <;> simp [h]
+
+/-- `patch_obj`'s question `'status' in resource.subresources` is answered by the cluster's fact. -/
+theorem status_belief_is_cluster_fact (cl : List ResDef) (names : List Name) (p : Name)
+    (hnames : ∀ n, n ∈ names ↔ n ∈ discoveryNames cl)
+    (hcl : ∀ r ∈ cl, '/' ∉ r.plural) (hp : '/' ∉ p) :
+    believesStatus names p = true ↔ servesStatus cl p := by
+  rw [believesStatus_iff, discovered_subresources cl names p statusName hnames hcl hp]
+  rfl
+
+/-- `status through the status subresource EXACTLY WHEN THE RESOURCE HAS ONE`, end to end (discovery + patching): a
+    request of the call goes to `/status` only if the cluster serves it for this resource; and if it does, the main
+    resource never receives status content in a merge-patch. For every cluster, discovery order, patch, environment. -/
+theorem status_routed_iff_served (cl : List ResDef) (names : List Name) (p : Name)
+    (hnames : ∀ n, n ∈ names ↔ n ∈ discoveryNames cl)
+    (hcl : ∀ r ∈ cl, '/' ∉ r.plural) (hp : '/' ∉ p)
+    (pt : Patch) (orig : Obj) (env : Env) (s : Server) :
+    ∀ r ∈ (patchObj (believesStatus names p) pt orig env s).reqs,
+      ((r.kind = .mergeStatus ∨ r.kind = .jsonStatus) → servesStatus cl p) ∧
+      (servesStatus cl p → r.kind = .mergeBody → ∃ f, r.payload = .merge f ∧ lookup "status" f = none) := by
+  intro r hr
+  have hb := status_belief_is_cluster_fact cl names p hnames hcl hp
+  have h := routed_by_subresource (believesStatus names p) pt orig env s r hr
+  constructor
+  · intro hk
+    apply hb.1
+    cases hsub : believesStatus names p with
+    | true => rfl
+    | false =>
+      have := h.2.2.1 hsub
+      rcases hk with hk | hk
+      · exact absurd hk this.1
+      · exact absurd hk this.2
+  · intro hs hk
+    have hsub := hb.2 hs
+    have := h.1 hk
+    exact ⟨_, this.1, this.2.1 hsub⟩
+
+/-- The delimiter matters (seeded change C08g): with `name.startswith(plural)` instead of `startswith(plural + '/')` a
+    resource inherits the subresources of a sibling whose plural merely begins with its own. `widgets` (no status
+    subresource) next to `widgetsets` (with one): the code's reading says no subresource and the whole patch (status
+    field + finalizer) is delivered; the variant's reading says there is one, the status goes to `/status`, the cluster
+    answers 404 (no such route), the call ends as for a vanished object, and neither the status nor the finalizer
+    reaches the object, which lives on. -/
+theorem prefix_match_variant_witness :
+    let cl : List ResDef := [⟨"widgets".toList, []⟩, ⟨"widgetsets".toList, [statusName]⟩]
+    let names := discoveryNames cl
+    let o : Obj := ⟨1, 5, false, [], [("spec", obj [("x", num 0)])]⟩
+    let s : Server := ⟨5, 1, some o⟩
+    let pt : Patch := ⟨[("status", obj [("phase", str "Ready")])], [.block "kopf"]⟩
+    let good := patchObj (believesStatus names "widgets".toList) pt o noStatusEndpoint s
+    let bad := patchObj (believesStatusPrefix names "widgets".toList) pt o noStatusEndpoint s
+    believesStatus names "widgets".toList = false ∧ believesStatusPrefix names "widgets".toList = true ∧
+    believesStatus names "widgetsets".toList = true ∧
+    good.outcome.isGone = false ∧
+      (good.server.obj.map (fun o => (o.fins, (lookup "status" o.body).isSome))) = some (["kopf"], true) ∧
+    bad.outcome.isGone = true ∧
+      (bad.server.obj.map (fun o => (o.uid, o.rv, o.fins, (lookup "status" o.body).isSome))) = some (1, 5, [], false) := by decide
 
 end Kopf.C08
